@@ -72,3 +72,16 @@ def _wrap(module, stmts, params, result, name, prelude):
     f = ns[name]
     f.__cut_source__ = ast.unparse(mod)
     return f
+
+
+def cut_main(module, from_stmt, params=(), result=None, name='_cut_main', prelude=''):
+    """Cut the tail of the module's `if __name__ == '__main__':` block, starting at the statement whose source is `from_stmt`
+    (the command-line driver loop), and wrap it as a function."""
+    tree = ast.parse(inspect.getsource(module))
+    for node in tree.body:
+        if isinstance(node, ast.If) and ast.unparse(node.test) == "__name__ == '__main__'":
+            for j, st in enumerate(node.body):
+                if ast.unparse(st).strip() == from_stmt:
+                    return _wrap(module, node.body[j:], params, result, name, prelude)
+            raise AnchorMissing('statement `%s` not found in the __main__ block of %s' % (from_stmt, module.__name__))
+    raise AnchorMissing('no __main__ block in %s' % module.__name__)
